@@ -11,13 +11,16 @@ import (
 	"encoding/json"
 	"flag"
 	"fmt"
+	"net/http"
 	"net/http/httptest"
+	"net/url"
 	"os"
 	"strconv"
 	"strings"
 	"sync"
 	"time"
 
+	"github.com/gorilla/websocket"
 	"shanhu.io/g/aries"
 	"shanhu.io/g/sniproxy"
 	"verifharness/hx"
@@ -32,6 +35,7 @@ type Step struct {
 	Op     string `json:"op"` // connect | release | close | sever
 	Name   int    `json:"name"`
 	HoldCB bool   `json:"holdcb,omitempty"` // hold the new thread before OnConnect
+	Panic  string `json:"panic,omitempty"`  // connect | disconnect: that callback of the new connection panics
 	T      int    `json:"t"`                // connection index for release/close/sever
 }
 
@@ -132,6 +136,12 @@ func genHistory(seed uint64, i int, free bool) Case {
 				opts = append(opts, Step{Op: "connect", Name: n, HoldCB: true})
 			}
 		}
+		if r.Intn(8) == 0 {
+			opts = append(opts, Step{Op: "badconnect", Name: r.Intn(nNames)})
+		}
+		if r.Intn(6) == 0 {
+			opts = append(opts, Step{Op: "sideprobe", Name: r.Intn(nNames)}, Step{Op: "sideprobe", Name: r.Intn(nNames)})
+		}
 		for t, g := range conns {
 			if g.finished {
 				continue
@@ -146,6 +156,12 @@ func genHistory(seed uint64, i int, free bool) Case {
 			break
 		}
 		st := opts[r.Intn(len(opts))]
+		if st.Op == "connect" && !st.HoldCB && r.Intn(12) == 0 {
+			st.Panic = "disconnect"
+		}
+		if st.Op == "connect" && !st.HoldCB && i%200 == 7 && len(conns) == 1 {
+			st.Panic = "connect" // (costs the 3 s shutdown time-out of Close)
+		}
 		switch st.Op {
 		case "connect":
 			st.T = len(conns)
@@ -161,6 +177,10 @@ func genHistory(seed uint64, i int, free bool) Case {
 				}
 			}
 			cur[st.Name] = len(conns)
+			if st.Panic == "connect" { // it kicks its predecessor, then unwinds at once
+				g.serving, g.finished = false, true
+				cur[st.Name] = -1
+			}
 			conns = append(conns, g)
 		case "release":
 			g := conns[st.T]
@@ -202,6 +222,7 @@ type sconn struct {
 	ended     chan struct{} // closed when ServeBack returned
 	connected chan struct{}
 	sess      int64
+	panicAt   string
 }
 
 type world struct {
@@ -274,6 +295,10 @@ func (w *world) run() {
 			if w.free {
 				return 0
 			}
+			if sc.panicAt == "connect" {
+				w.event(Ev{A: "crash", T: sc.idx})
+				panic("verif: OnConnect panics")
+			}
 			sc.sess = int64(100 + sc.idx)
 			c.Notes = append(c.Notes, Note{K: "connect", N: nameIndex(user), S: sc.sess})
 			w.event(Ev{A: "connect", T: sc.idx, S: sc.sess})
@@ -286,6 +311,9 @@ func (w *world) run() {
 			c.Notes = append(c.Notes, Note{K: "disconnect", N: nameIndex(user), S: session})
 			if !w.free {
 				w.event(Ev{A: "disconnect", T: int(session - 100)})
+				if i := int(session - 100); i >= 0 && i < len(w.conns) && w.conns[i].panicAt == "disconnect" {
+					panic("verif: OnDisconnect panics")
+				}
 			}
 		},
 	})
@@ -334,15 +362,20 @@ func (w *world) run() {
 		w.mu.Lock()
 		sc := w.pendCB
 		w.mu.Unlock()
-		err := srv.ServeBack(ac)
-		if !w.free && sc != nil {
-			w.mu.Lock()
-			w.event(Ev{A: "unmap", T: sc.idx})
-			w.event(Ev{A: "close", T: sc.idx})
-			w.mu.Unlock()
-			close(sc.ended)
+		if ac.Req.Header.Get("Upgrade") == "" || ac.Req.URL.Query().Get("side") != "" {
+			sc = nil // a probe (failed upgrade, side websocket), not an endpoint connection
 		}
-		return err
+		// (deferred: a panicking callback unwinds through here; net/http recovers it)
+		defer func() {
+			if !w.free && sc != nil {
+				w.mu.Lock()
+				w.event(Ev{A: "unmap", T: sc.idx})
+				w.event(Ev{A: "close", T: sc.idx})
+				w.mu.Unlock()
+				close(sc.ended)
+			}
+		}()
+		return srv.ServeBack(ac)
 	}))
 	defer ts.Close()
 	addr := ts.Listener.Addr().String()
@@ -396,12 +429,15 @@ func (w *world) run() {
 		w.mu.Lock()
 		w.step = si
 		w.mu.Unlock()
-		if st.Op != "connect" && (st.T < 0 || st.T >= len(w.conns)) {
+		if st.Op != "connect" && st.Op != "badconnect" && st.Op != "sideprobe" && (st.T < 0 || st.T >= len(w.conns)) {
 			st.Op = "skip" // (a shrunk script may name a connection that no longer exists)
 		}
 		if st.Op == "connect" {
 			st.T = len(w.conns)
 			c.Steps[si].T = st.T
+		}
+		if (st.Op == "close" || st.Op == "sever" || st.Op == "release") && w.conns[st.T].panicAt == "connect" {
+			st.Op = "skip"
 		}
 		if st.Op == "close" || st.Op == "sever" {
 			sc := w.conns[st.T]
@@ -442,6 +478,7 @@ func (w *world) run() {
 			if st.HoldCB {
 				sc.holdCB = make(chan struct{})
 			}
+			sc.panicAt = st.Panic
 			old := w.resolve(st.Name)
 			w.mu.Lock()
 			w.conns = append(w.conns, sc)
@@ -460,7 +497,16 @@ func (w *world) run() {
 				ok = false
 				break
 			}
-			if !st.HoldCB && !waitCh(sc.connected) {
+			if st.Panic == "connect" {
+				// OnConnect panics: the deferred unmap and Close run and the
+				// handler unwinds (Close waits out its 3 s shutdown time-out:
+				// the serve loop of this connection never started)
+				if !waitCh(sc.ended) {
+					c.Hang = "connect: the handler of a connection whose OnConnect panicked did not return"
+					ok = false
+					break
+				}
+			} else if !st.HoldCB && !waitCh(sc.connected) {
 				c.Hang = "connect: OnConnect not called"
 				ok = false
 				break
@@ -478,6 +524,29 @@ func (w *world) run() {
 				default: // still held before OnConnect
 				}
 			}
+		case "badconnect":
+			// a request that cannot be upgraded to a websocket: ServeBackName
+			// returns before mapping anything
+			resp, err := http.Get("http://" + addr + names[st.Name])
+			if err == nil {
+				resp.Body.Close()
+			}
+			w.mu.Lock()
+			w.event(Ev{A: "upgradefail", T: 9000 + si, N: st.Name})
+			w.mu.Unlock()
+		case "sideprobe":
+			// a side websocket for an unknown session: upgraded only if the
+			// name resolves (Server.serveBackSide looks it up)
+			u := "ws://" + addr + names[st.Name] + "?side=" + url.QueryEscape(`{"ID":987654,"Key":1}`)
+			conn, _, err := websocket.DefaultDialer.Dial(u, nil)
+			seen := -1
+			if err == nil {
+				seen = 1
+				conn.Close()
+			}
+			w.mu.Lock()
+			w.event(Ev{A: "probe", N: st.Name, Seen: seen})
+			w.mu.Unlock()
 		case "release":
 			sc := w.conns[st.T]
 			select {
